@@ -18,22 +18,25 @@ structure Evolves (cfg : Cfg σ) (pins : List Nat) (c c' : Core σ) : Prop where
   logged : ∀ k, sGet c.st k ≠ none → sGet c'.st k = none → (k, false) ∈ c'.log
   logmono : ∀ e, e ∈ c.log → e ∈ c'.log
   nodup : (keys c.st).Nodup → (keys c'.st).Nodup
+  /-- only resident, unpinned entries are logged as evicted -/
+  honest : ∀ k, (k, false) ∈ c'.log → (k, false) ∈ c.log ∨ ∃ v, sGet c.st k = some v ∧ cfg.tok k v ∉ pins
 
 theorem Evolves.refl (cfg : Cfg σ) (pins : List Nat) (c : Core σ) : Evolves cfg pins c c :=
-  ⟨fun _ _ h => h, fun _ _ h _ => h, fun _ h1 h2 => absurd h2 h1, fun _ h => h, fun h => h⟩
+  ⟨fun _ _ h => h, fun _ _ h _ => h, fun _ h1 h2 => absurd h2 h1, fun _ h => h, fun h => h, fun _ h => Or.inl h⟩
 
 theorem Evolves.of_eq {cfg : Cfg σ} {pins : List Nat} {c c' : Core σ} (h1 : c'.st = c.st) (h2 : c'.log = c.log) :
     Evolves cfg pins c c' := by
-  refine ⟨?_, ?_, ?_, ?_, ?_⟩
+  refine ⟨?_, ?_, ?_, ?_, ?_, ?_⟩
   · intro k v h; rw [h1] at h; exact h
   · intro k v h _; rw [h1]; exact h
   · intro k hk hc; rw [h1] at hc; exact absurd hc hk
   · intro e he; rw [h2]; exact he
   · intro h; rw [h1]; exact h
+  · intro k hk; rw [h2] at hk; exact Or.inl hk
 
 theorem Evolves.trans {cfg : Cfg σ} {pins : List Nat} {a b c : Core σ}
     (h1 : Evolves cfg pins a b) (h2 : Evolves cfg pins b c) : Evolves cfg pins a c := by
-  refine ⟨?_, ?_, ?_, ?_, ?_⟩
+  refine ⟨?_, ?_, ?_, ?_, ?_, ?_⟩
   · intro k v h; exact h1.sub k v (h2.sub k v h)
   · intro k v h hp; exact h2.keep k v (h1.keep k v h hp) hp
   · intro k hk hc
@@ -42,6 +45,10 @@ theorem Evolves.trans {cfg : Cfg σ} {pins : List Nat} {a b c : Core σ}
     | some v => exact h2.logged k (by simp [hb]) hc
   · intro e h; exact h2.logmono e (h1.logmono e h)
   · intro h; exact h2.nodup (h1.nodup h)
+  · intro k hk
+    rcases h2.honest k hk with h | ⟨v, hv, hp⟩
+    · exact h1.honest k h
+    · exact Or.inr ⟨v, h1.sub k v hv, hp⟩
 
 /-- same storage and log, other fields arbitrary -/
 theorem Evolves.congr_right {cfg : Cfg σ} {pins : List Nat} {a b b' : Core σ}
@@ -107,10 +114,11 @@ theorem removeClosure_evolves (cfg : Cfg σ) (pins : List Nat) (c : Core σ) (k 
   rcases removeClosure_cases cfg pins c k with ⟨_, e⟩ | ⟨v, _, _, e⟩ | ⟨v, hv, hp, e⟩
   · rw [e]; exact Evolves.refl _ _ _
   · rw [e]
-    refine ⟨fun _ _ h => h, fun _ _ h _ => h, fun _ h1 h2 => absurd h2 h1, ?_, fun h => h⟩
-    intro e he; simp [he]
+    refine ⟨fun _ _ h => h, fun _ _ h _ => h, fun _ h1 h2 => absurd h2 h1, ?_, fun h => h, ?_⟩
+    · intro e he; simp [he]
+    · intro j hj; simp at hj; exact Or.inl hj
   · rw [e]
-    refine ⟨?_, ?_, ?_, ?_, ?_⟩
+    refine ⟨?_, ?_, ?_, ?_, ?_, ?_⟩
     · intro j w h; simp only [sGet_sDel] at h; split at h
       · simp at h
       · exact h
@@ -122,6 +130,11 @@ theorem removeClosure_evolves (cfg : Cfg σ) (pins : List Nat) (c : Core σ) (k 
       · exact absurd hc hj
     · intro e he; simp [he]
     · intro h; exact nodup_keys_sDel k h
+    · intro j hj
+      simp only [List.mem_append, List.mem_singleton, Prod.mk.injEq, and_true] at hj
+      rcases hj with hj | hj
+      · exact Or.inl hj
+      · subst hj; exact Or.inr ⟨v, hv, hp⟩
 
 theorem evictOrPin_evolves (cfg : Cfg σ) (pins : List Nat) (c : Core σ) (x : Nat) (rest : Lru) :
     Evolves cfg pins c (evictOrPin cfg pins c x rest) := by
